@@ -66,7 +66,9 @@ def _spec(i):
         ops.append({'op': 'nfdata', 'lf': 'L0', 'nf': 'NF', 'data': {'$bytes': '00017f80ff' if i == 3 else '0100'}})
         ops.append({'op': 'nfdata', 'lf': 'L0', 'nf': 'NF', 'data': 'text payload %d' % i})
         ops.append(S.op_add('well_reference_point', 'WR', name, magnetic_declination={'$f': '8000000000000000'} if i == 5 else 0))
-    return {'sul': {'max_record_length': 8192, 'set_identifier': 'SET-1'}, 'ops': ops, 'write': {}}
+    # (record lengths differ between the specifications: anything remembered per record size must not carry over)
+    vrl = {2: 128, 4: 64, 5: 256}.get(i, 8192)
+    return {'sul': {'max_record_length': vrl, 'set_identifier': 'SET-1'}, 'ops': ops, 'write': {}}
 
 
 NSPEC = 7
